@@ -210,6 +210,7 @@ Judge(s, e) ==
     [] e.ev = "Lex"    -> IF IsLayoutRun(s) THEN JudgeLexLayout(s, e) ELSE JudgeLex(s, e)
     [] e.ev = "Scan"   -> JudgeScan(s, e)
     [] e.ev = "Retain" -> JudgeRetain(s, e)
+    [] e.ev = "LexRetain" -> IF s.phase # "closed" \/ (e.changed = 0 /\ e["end"] = "eof") THEN {} ELSE {"C01/LexRetain/Altered"}
     [] e.ev = "Sink"   -> JudgeSink(e)
     [] e.ev = "AttSrc" -> JudgeAttSrc(e)
     [] e.ev \in {"Pin", "WriteTool", "ReadTool"} -> JudgeConformance(e)
